@@ -1125,6 +1125,9 @@ fn same_class(a: &Viol, b: &Viol) -> bool {
 fn minimise(rep: &Replay, max_secs: u64) -> Replay {
     let start = Instant::now();
     let mut best = Replay { property: rep.property.clone(), engine: rep.engine.clone(), seed: rep.seed, exec: rep.exec, plan: rep.plan.clone(), expect: rep.expect.clone(), schedule_hash: rep.schedule_hash };
+    if std::env::var_os("VERIF_NO_MIN").is_some() {
+        return best;
+    }
     let try_plan = |plan: &Plan| -> Option<(Plan, Viol, u64)> {
         let r = run_plan(plan);
         if let Some(v) = r.viols.first()
